@@ -26,7 +26,7 @@ ASSUMPTIONS = [
 ]
 N = {'quick': 700, 'thorough': 5000}
 EPOCHS = 3
-RANDOM_OPS = {'reshuffle', 'local_shuffle', 'shuffle_once'}
+RANDOM_OPS = {'reshuffle', 'local_shuffle', 'shuffle_once', 'apply'}
 
 
 def plan(tier):
@@ -99,7 +99,12 @@ def check(case):
             if A != P:
                 raise Violation(f'prefetch-differs|workers={w}', f'{desc}\nplain epochs         {A}\n'
                                                                  f'prefetch({w},{b}) epochs {P}')
-    per_epoch = has_op(node, {'reshuffle', 'local_shuffle'})
+    def per_epoch_random(n):
+        return n['op'] in ('reshuffle', 'local_shuffle') or (n['op'] == 'apply' and n['fn'] != 'map')
+
+    def unfreezable(n):
+        return n['op'] == 'local_shuffle' or (n['op'] == 'apply' and n['fn'] == 'local')
+    per_epoch = any(per_epoch_random(n) for n in progs.walk(node))
     ds = fresh(node)
     try:
         ordered = ds.ordered
@@ -110,7 +115,7 @@ def check(case):
     if not per_epoch:
         if len({repr(e) for e in A}) != 1:
             raise Violation('one-time-shuffle-not-fixed', f'{desc}\nepochs {A}')
-    if per_epoch and not has_op(node, {'local_shuffle'}):
+    if per_epoch and not any(unfreezable(n) for n in progs.walk(node)):
         orig = fresh(node)
         np.random.seed(9)
         F = orig.copy(freeze=True)
@@ -169,7 +174,7 @@ def instances(tmpdir):
         'CatchExceptionDataset': d.catch((ValueError, KeyError), warn=True),
         'PrefetchDataset': d.prefetch(2, 5, backend='t', catch_filter_exception=(ValueError,)),
         'ReShuffleDataset': d.shuffle(True, rng=rs),
-        'LocalShuffleDataset': d.shuffle(True, rng=rs, buffer_size=7),
+        'LocalShuffleDataset': d.shuffle(True, rng=np.random.default_rng(5), buffer_size=7),
         'SliceDataset': d[[2, 0]],
         'FilterDataset': d.filter(f),
         'ConcatenateDataset': d.concatenate(lst),
@@ -258,13 +263,19 @@ def st_case(draw):
         mb = ev(below)
         if not (mb.indexable and mb.sized) or mb.n < 2:
             below = src
-        rnd = draw(st.sampled_from(['reshuffle', 'reshuffle', 'local_shuffle', 'shuffle_once']))
+        rnd = draw(st.sampled_from(['reshuffle', 'reshuffle', 'local_shuffle', 'shuffle_once', 'apply']))
+        rk = draw(st.sampled_from(['rs', 'rs', 'gen']))
         if rnd == 'local_shuffle':
             node = {'op': 'local_shuffle', 'buffer': draw(st.integers(1, ev(below).n + 1)),
-                    'seed': draw(st.integers(0, 500)), 'in': below}
+                    'seed': draw(st.integers(0, 500)), 'rng': rk, 'in': below}
+        elif rnd == 'apply':
+            node = {'op': 'apply', 'fn': draw(st.sampled_from(['shuffle', 'shuffle', 'local', 'map'])),
+                    'seed': draw(st.integers(0, 500)), 'rng': rk, 'in': below}
+        elif rnd == 'reshuffle':
+            node = {'op': rnd, 'seed': draw(st.integers(0, 500)), 'rng': rk, 'in': below}
         else:
             node = {'op': rnd, 'seed': draw(st.integers(0, 500)), 'in': below}
-        above_ops = {'map', 'filter_lazy', 'batch', 'items', 'concat', 'copy', 'frag', 'tile', 'zip'}
+        above_ops = {'map', 'filter_lazy', 'batch', 'items', 'concat', 'copy', 'frag', 'tile', 'zip', 'apply'}
         if rnd == 'shuffle_once':
             above_ops |= {'slice', 'cache_lazy', 'reshuffle', 'local_shuffle'}
         node = draw(gen.st_program(ctx, above_ops, max_stages=3, source=node))
